@@ -168,6 +168,14 @@ func (r *Run) Import(mod string) {
 	r.imports = append(r.imports, mod)
 }
 
+// PerShard sets how many model cases go into one coqc invocation (default 400;
+// lower it when single cases are large terms).
+func (r *Run) PerShard(n int) {
+	if n > 0 {
+		r.perShard = n
+	}
+}
+
 // Count records one evaluated case; key identifies it for distinctness, nontrivial
 // says whether it counts by the property's rule; bucket feeds the input histogram.
 func (r *Run) Count(key string, nontrivial bool, bucket string) {
